@@ -106,6 +106,15 @@ def implies(a, b):
     return (not a) or bool(b)
 
 
+def re_match(pattern, s):
+    import re
+    return isinstance(s, str) and re.match(pattern, s) is not None
+
+
+def lower(s):
+    return s.lower()
+
+
 def is_ref(x):
     """an odML object / heap object (anything that is not a plain value)"""
     return not isinstance(x, (type(None), bool, int, float, str, tuple, list, dict, bytes))
@@ -122,5 +131,5 @@ def same(a, b):
 
 NATIVE_ENV = {
     'is_int': is_int, 'is_bool': is_bool, 'is_str': is_str, 'is_tuple': is_tuple, 'is_list': is_list,
-    'is_none': is_none, 'is_float': is_float, 'implies': implies, 'same': same, 'is_ref': is_ref,
+    'is_none': is_none, 'is_float': is_float, 'implies': implies, 'same': same, 'is_ref': is_ref, 're_match': re_match, 'lower': lower,
 }
